@@ -67,13 +67,22 @@ theorem single_correct (i : Instr) (hi : InstrOK i) (addr : Nat) (r : BTR) (σ :
 theorem bc_not_reg (i : Reg) : regName i ≠ bc.name := regName_ne_bc i
 
 theorem sle_zero (x : Word) : x.sle 0 = (x.slt 0 || x == 0) := by
-  have h1 : x.sle 0 = true → (x.slt 0 = true ∨ x = 0) := by intro h; bv_decide
-  have h2 : x.slt 0 = true → x.sle 0 = true := by intro h; bv_decide
-  have h3 : x = 0 → x.sle 0 = true := by intro h; subst h; decide
+  have h0 : (0 : Word).toInt = 0 := by decide
   rw [Bool.eq_iff_iff]
-  simp only [Bool.or_eq_true, beq_iff_eq]
-  exact ⟨h1, fun h => h.elim h2 h3⟩
-theorem slt_zero_left (x : Word) : (0 : Word).slt x = !x.sle 0 := by bv_decide
+  simp only [BitVec.sle, BitVec.slt, h0, Bool.or_eq_true, decide_eq_true_eq, beq_iff_eq]
+  constructor
+  · intro h
+    by_cases hz : x.toInt = 0
+    · right; apply BitVec.eq_of_toInt_eq; rw [hz, h0]
+    · left; omega
+  · rintro (h | h)
+    · omega
+    · subst h; rw [h0]; omega
+
+theorem slt_zero_left (x : Word) : (0 : Word).slt x = !x.sle 0 := by
+  have h0 : (0 : Word).toInt = 0 := by decide
+  simp only [BitVec.sle, BitVec.slt, h0]
+  by_cases h : 0 < x.toInt <;> simp [h] <;> omega
 
 theorem bit_or (p q : Bool) : Spec.binBV .or (BitVec.ofBool p) (BitVec.ofBool q) = some (Const.bit (p || q)) := by
   cases p <;> cases q <;> rfl
